@@ -37,6 +37,12 @@ type Allocator struct {
 
 // prefix must verify: containing.Mask.Size < prefix.Mask.Size < page
 func (a *Allocator) toIndex(base net.IP) (uint, error) {
+	// Offset works on 16-byte addresses: a pool inside ::ffff:0:0/96 also contains
+	// the 4-byte form of its addresses, which would make it slice out of bounds
+	base = base.To16()
+	if base == nil {
+		return 0, fmt.Errorf("Cannot compute prefix index: not an IP address")
+	}
 	value, err := allocators.Offset(base, a.containing.IP, a.page)
 	if err != nil {
 		return 0, fmt.Errorf("Cannot compute prefix index: %w", err)
